@@ -103,12 +103,11 @@ def apalache(workdir, tla, invs, timeout=APALACHE_TIMEOUT):
 
 
 def instances_for(ctx, layouts):
-    bbs, tbs = layouts["bucket_bits"], layouts["tag_bits"]
+    lts = [tuple(x) for x in layouts["layouts"]]
     inst = [("zigzag64", {}), ("zigzag32", {}), ("typens", {}), ("valuetype", {}), ("geometry", {}), ("geomvalue", {}),
             ("latlng", {})]
-    bsel = [b for b in bbs if b <= 3] if ctx.quick else bbs
-    for b in bsel:
-        for t in tbs:
+    for b, t in lts:
+        if b <= 3 or not ctx.quick:
             inst.append(("bucketheader", {"b": b, "t": t}))
     for z in (ctx.pick([0, 1, 15, 29], list(range(0, 30)))):
         inst.append(("tile", {"z": z}))
@@ -126,8 +125,10 @@ def run(ctx):
     layouts = lay[0]
     if not layouts["bucket_bits"] or min(layouts["bucket_bits"]) < 1:
         raise Inconclusive("unexpected bucket bits from the builder: %r" % layouts["bucket_bits"])
-    ctx.note("layouts the index builder creates (asked of compact.bucketBitsForCount / tagBits): bucketBits %d..%d x tagBits %s"
-             % (min(layouts["bucket_bits"]), max(layouts["bucket_bits"]), layouts["tag_bits"]))
+    ctx.note("layouts the index builder creates (asked of compact.bucketBitsForCount / tagBits / NewUint64MapBuilder): "
+             "bucketBits %d..%d x tagBits %s -> %d layouts, smallest %s"
+             % (min(layouts["bucket_bits"]), max(layouts["bucket_bits"]), layouts["tag_bits"], len(layouts["layouts"]),
+                layouts["layouts"][:4]))
     insts = instances_for(ctx, layouts)
     inconclusive = []
 
@@ -222,8 +223,9 @@ def run(ctx):
             inconclusive.append("%s: the generated/transcribed TLA+ disagrees with what the real functions returned (invariant Vectors)" % name)
         else:
             inconclusive.append("%s: apalache %s: %s" % (name, r["status"], r.get("out", "")[-600:]))
-    ctx.sample({"obligation": jobs[0][0]["instance"], "module": jobs[0][0]["module"], "result": results[jobs[0][0]["instance"]]["status"],
-                "cmd": results[jobs[0][0]["instance"]]["cmd"]})
+    for t, _ in jobs[2:9:3]:
+        ctx.samples.insert(0, {"obligation": t["instance"], "module": t["module"], "result": results[t["instance"]]["status"],
+                               "cmd": results[t["instance"]]["cmd"]})
 
     # ---- 4. counterexamples are candidates: run them on the real functions
     if confirm:
@@ -240,8 +242,8 @@ def run(ctx):
                 refuted.append(c["instance"])
                 ctx.fail(v["key"], v.get("msg", ""), {"pair": c["pair"], "params": c["params"], "apalache_counterexample": c["input"],
                                                       "verdict": v})
-                ctx.sample({"obligation": c["instance"], "result": "refuted", "apalache_counterexample": c["input"],
-                            "real_functions": (v.get("obs") or {}).get("failure", {}).get("what")})
+                ctx.samples.insert(0, {"obligation": c["instance"], "result": "refuted", "apalache_counterexample": c["input"],
+                                       "real_functions": (v.get("obs") or {}).get("failure", {}).get("what")})
     ctx.extra_cov["refuted_and_confirmed_on_real_code"] = sorted(refuted)
     ctx.extra_cov["proved"] = len(proved)
     ctx.extra_cov["apalache_cpu_wall_s"] = round(sum(r.get("wall", 0) for r in results.values()), 1)
